@@ -545,4 +545,15 @@ def r_chain(a, tier):
     return rule_chain(a, 'C05.R-CHAIN')
 
 
-RULES = [r_chain, r1_flag_ownership, r2_scope_protocol, r3_frame_classification, r4_join_commit, r5_commit_reaches_exit]
+def r6_optimizer(a, tier):
+    """the optimisation pass keeps every cut in its scope (nested choices are merged into their parent only when nothing in them can commit)"""
+    from . import c01_optimizer
+    rep = c01_optimizer.r11_optimizer(a, tier)
+    rep.rule = 'C05.R6'
+    for f in rep.findings:
+        f.rule = 'C05.R6'
+    rep.text = '[= C01.R11] ' + rep.text
+    return rep
+
+
+RULES = [r_chain, r1_flag_ownership, r2_scope_protocol, r3_frame_classification, r4_join_commit, r5_commit_reaches_exit, r6_optimizer]
